@@ -10,6 +10,14 @@ def main():
     faulthandler.enable()
     from vf.ctx import Ctx
     ctx = Ctx(prop, int(shard), int(nshards), int(seed), tier, variant, out)
+    if int(shard) % 4 == 3:
+        # observability switches must not change results: every fourth shard runs with the library's logger at DEBUG
+        import logging
+        lg = logging.getLogger("be.kuleuven.dtai.distance")
+        lg.addHandler(logging.NullHandler())
+        lg.propagate = False
+        lg.setLevel(logging.DEBUG)
+        ctx.count("shards_with_debug_logging")
     try:
         mod = importlib.import_module("vf.workloads." + prop)
         mod.run(ctx)
